@@ -175,5 +175,41 @@ def c05():
         shutil.rmtree(d)
 
 
+def c12():
+    """discard_exploration switched on between two run() slices, more
+    batches, then a resume: the per-batch update rewrote the shell statistics
+    of the discard view but not the flag, so the resumed sampler held
+    view statistics with the flag off (posterior() raises)."""
+    import shutil
+    import warnings
+    warnings.simplefilter('ignore')
+    from scipy.stats import multivariate_normal
+    from nautilus import Sampler
+
+    def like(x):
+        return multivariate_normal.logpdf(x, mean=[0.5, 0.5], cov=0.01)
+    kw = dict(n_dim=2, n_live=100, n_networks=0, seed=1)
+    d = tempfile.mkdtemp()
+    try:
+        fp = d + '/ck.h5'
+        s = Sampler(lambda x: x, like, filepath=fp, **kw)
+        s.run(n_eff=200)
+        s.discard_exploration = True
+        s.run(n_eff=400)
+        r = Sampler(lambda x: x, like, filepath=fp, resume=True, **kw)
+        print('live flag', s.discard_exploration, 'resumed flag',
+              r.discard_exploration, 'shell_n', int(r.shell_n.sum()),
+              'stored', sum(len(x) for x in r.log_l))
+        try:
+            a, b = r.posterior(), s.posterior()
+            return len(a[0]) != len(b[0]) or r.log_z != s.log_z or \
+                r.discard_exploration != s.discard_exploration
+        except ValueError as e:
+            print('posterior() of the resumed sampler raised', e)
+            return True
+    finally:
+        shutil.rmtree(d)
+
+
 if __name__ == '__main__':
     sys.exit(1 if globals()[sys.argv[1]]() else 0)
